@@ -165,6 +165,9 @@ def cg(A: LinearOperator, B: torch.Tensor,
 
         if torch.all(resid_norm < stop_matrix):
             converge = True
+            # return the iterate that meets the stopping condition in every column
+            # (the best one in terms of the largest residual might not)
+            best_xk = xk_1
             break
 
         zk_1 = precond_fcn(rk_1)
@@ -309,6 +312,9 @@ def bicgstab(A: LinearOperator, B: torch.Tensor,
         # check for the stopping conditions
         if torch.all(resid_norm < stop_matrix):
             converge = True
+            # return the iterate that meets the stopping condition in every column
+            # (the best one in terms of the largest residual might not)
+            best_xk = xk
             break
 
         rho_k = rho_knew
@@ -429,6 +435,9 @@ def gmres(A: LinearOperator, B: torch.Tensor,
 
             if torch.all(resid_norm < stop_matrix):
                 converge = True
+                # return the iterate that meets the stopping condition in every column
+                # (the best one in terms of the largest residual might not)
+                best_res = res
                 break
 
     if not converge:
